@@ -789,8 +789,10 @@ class Sim:
         if res is None or self.stop:
             return
         ok = res['status'] == 0 and not faults and not self.pending_mid_edit
-        if ok and self.check.get('converge', True) and not any(f['kind'] for f in self.findings if f['prop'] in ('C01', 'C03') and not f['known']):
-            # C02: the same invocation again must start nothing
+        if ok and self.check.get('converge', True):
+            # C02: the same invocation again must start nothing. (Also when the first build already shows an unattributed
+            # C01/C03 finding: each check reports its own property only, and a second run that does work is a C02
+            # violation in its own right. After an attributed known finding the history has stopped above.)
             always_dirty = self.has_always_dirty(targets)
             first_model, first_cur = self.last_model_before, dict(getattr(self, 'cur', None) or {})
             self.last_model_before = self.model.clone()
@@ -996,28 +998,39 @@ def run_late_targets(sim, ops):
         return
     n = 0
     for e in bound[:3]:
-        if sim.stop or any(not f['known'] for f in sim.findings):
-            return
-        # dirty: the dyndep file's producer (so the file is loaded mid-build) and everything the file adds
-        for x in g['edges']:
-            if x.get('is_dd_producer') and key(x) == e['dd']:
-                sim.write(x['exp'][0], sim.new_content(x['exp'][0], 7 + n))
-        late = []
+        late, late_vals = [], []
         for i in models.dd_inputs(g, e):
             pe = producer_map(g).get(i)
             if pe is not None:
                 late.append(pe)
-                late += [producer_map(g)[v] for v in pe.get('vals', []) if producer_map(g).get(v) is not None]
-        for x in late:
-            srcs_ = [i for i in x['exp'] + x['imp'] if i in g['srcs']]
-            if srcs_:
-                sim.write(srcs_[0], sim.new_content(srcs_[0], 8 + n))
-        if late:
-            sim.labels.add('late_planned_work')
-        if any(x.get('vals') for x in late):
-            sim.labels.add('late_planned_validation')
-        n += 1
-        sim.build(dict(op='build', sel=0, j=1 + n % 2, k=1, sched=[], mid=[], targets=[key(e)]))
+                late_vals += [producer_map(g)[v] for v in pe.get('vals', []) if producer_map(g).get(v) is not None]
+        # pass 1: only the dyndep file's producer and the sources that the late validations alone read are dirty, so the
+        #         bound statement and the producers of its added inputs stay clean while a validation has work to do
+        # pass 2: the producer and everything the file adds are dirty
+        for pass_ in (1, 2):
+            if sim.stop or any(not f['known'] for f in sim.findings):
+                return
+            for x in g['edges']:
+                if x.get('is_dd_producer') and key(x) == e['dd']:
+                    sim.write(x['exp'][0], sim.new_content(x['exp'][0], 7 + 2 * n + pass_))
+            others = set(i for x in g['edges'] if x not in late_vals for i in x['exp'] + x['imp'] + x.get('hidden', []))
+            todo_ = late_vals if pass_ == 1 else late + late_vals
+            touched = False
+            for x in todo_:
+                srcs_ = [i for i in x['exp'] + x['imp'] if i in g['srcs'] and (pass_ == 2 or i not in others)]
+                if srcs_:
+                    sim.write(srcs_[0], sim.new_content(srcs_[0], 8 + 2 * n + pass_))
+                    touched = True
+            if pass_ == 1 and not touched:
+                continue
+            if late:
+                sim.labels.add('late_planned_work')
+            if late_vals:
+                sim.labels.add('late_planned_validation')
+                if pass_ == 1:
+                    sim.labels.add('late_validation_dirty_consumer_clean')
+            n += 1
+            sim.build(dict(op='build', sel=0, j=1 + n % 2, k=1, sched=[], mid=[], targets=[key(e)]))
 
 
 # ---------------------------------------------------------------------------------------------- C07 crash / interrupt
